@@ -68,6 +68,15 @@ def _features(ctx: Ctx, f: FuncInfo) -> Dict[str, object]:
         cs = [c for c in fl.calls(name) if any(a is loop for a in ancestors(c))]
         feats[f'{name}-args'] = tuple(sorted(k.arg for c in cs for k in c.keywords)) if cs else None
     # every source contributes
+    # is the list of parsed transactions reordered / filtered before it is analysed or listed?
+    reorder = []
+    for n in ast.walk(f.node):
+        if isinstance(n, ast.Call) and isinstance(n.func, ast.Attribute) and n.func.attr in ('sort', 'reverse') and src(n.func.value) == 'all_txns':
+            reorder.append(src(n)[:40])
+        if isinstance(n, ast.Assign) and src(n.targets[0]) == 'all_txns' and isinstance(n.value, ast.Call) and call_name(n.value) in ('sorted', 'reversed', 'list', 'set') \
+                and any(isinstance(x, ast.Name) and x.id == 'all_txns' for x in ast.walk(n.value)):
+            reorder.append(src(n)[:40])
+    feats['reorders-transactions'] = tuple(reorder)
     feats['collects-all'] = any(isinstance(n, ast.Call) and isinstance(n.func, ast.Attribute) and n.func.attr == 'extend' and src(n.func.value) == 'all_txns' for n in ast.walk(loop))
     return feats
 
@@ -76,11 +85,12 @@ def check(ctx: Ctx) -> None:
     proj = ctx.proj
     ctx.rule('C16.R1', 'pipeline features agree: what `up` does when loading rules, transforms and supplemental data and when parsing each source, explain and discover do too', floor=12)
     ctx.rule('C16.R2', 'one decision procedure: the rule deciders reachable from explain / discover are the ones reachable from up', floor=2)
+    ctx.rule('C16.R4', 'explain_description applies the transforms to the very transaction it then matches (as normalize_merchant does)', floor=2)
     ctx.rule('C16.R3', 'the Unknown contract: discover filters on the literal normalize_merchant returns for unmatched transactions', floor=2)
     fs = {k: proj.func(v) for k, v in COMMANDS.items()}
     feats = {k: _features(ctx, f) for k, f in fs.items()}
     ref = feats['up']
-    keys = ['skips-supplemental-sources', 'loads-supplemental-data', 'loads-transforms', 'loads-rules', 'passes-rule-mode', 'collects-all', 'parse_amex-args', 'parse_boa-args']
+    keys = ['skips-supplemental-sources', 'loads-supplemental-data', 'loads-transforms', 'loads-rules', 'passes-rule-mode', 'collects-all', 'reorders-transactions', 'parse_amex-args', 'parse_boa-args']
     for cmd in ('explain', 'discover'):
         f = fs[cmd]
         ft = feats[cmd]
@@ -94,6 +104,8 @@ def check(ctx: Ctx) -> None:
                     extra = ': rows of supplemental (query-only) files are parsed and listed as transactions'
                 if k == 'loads-supplemental-data':
                     extra = ': rules that query supplemental data never match here'
+                if k == 'reorders-transactions':
+                    extra = ': analyze_transactions is order-sensitive for a merchant fed by two rules (category of the last payment, pattern of the first), so the reported category / rule differ from `tally up`'
                 ctx.fail('C16.R1', f, f'feature:{k}', f'`tally {cmd}` differs from `tally up` in {k}: up={ref[k]}, {cmd}={ft[k]}{extra}', ft['_loop'])
         # parse_generic_csv arguments
         pa, ra = ft['parse-args'], ref['parse-args']
@@ -105,6 +117,7 @@ def check(ctx: Ctx) -> None:
                                                      f'the same statement row can classify differently', ft['_parse_call'])
     r2(ctx, fs)
     r3(ctx, fs)
+    r4(ctx)
 
 
 def _deciders(ctx: Ctx) -> Set[str]:
@@ -154,6 +167,12 @@ def r3(ctx: Ctx, fs) -> None:
     d = fs['discover']
     filt = [n for n in ast.walk(d.node) if isinstance(n, ast.Compare) and "get('category')" in src(n.left) and isinstance(n.comparators[0], ast.Constant)]
     if not filt:
+        # the selection of the transactions to list: a comprehension over all parsed transactions with a condition
+        sel = [n for n in ast.walk(d.node) if isinstance(n, ast.ListComp) and len(n.generators) == 1 and src(n.generators[0].iter) == 'all_txns' and n.generators[0].ifs]
+        if sel:
+            ctx.fail('C16.R3', d, 'unknown-literal', f'discover selects `{src(sel[0].generators[0].ifs[0])}` instead of category == "Unknown": transactions that `tally up` leaves Unknown but that '
+                                                     f'carry tags or transform info (a tag-only rule matched, or a field transform ran) disappear from the list', sel[0])
+            return
         ctx.unknown('C16.R3', d, 'discover\'s Unknown filter not found')
     lit = filt[0].comparators[0].value
     ctx.check(lits == {lit} and isinstance(filt[0].ops[0], ast.Eq), 'C16.R3', d, 'unknown-literal', f'discover keeps category == {lit!r}, the literal normalize_merchant returns',
@@ -171,3 +190,38 @@ def r3(ctx: Ctx, fs) -> None:
         v = [v for k, v in zip(dicts[0].keys, dicts[0].values) if isinstance(k, ast.Constant) and k.value == 'category'][0]
         ok = 'call:normalize_merchant' in fl.atoms(v, dicts[0]) and 'unpack:1' in fl.atoms(v, dicts[0])
     ctx.check(ok, 'C16.R3', pg, 'category-copied', "transaction['category'] is the category normalize_merchant returned", "transaction['category'] is not the classifier's category")
+
+
+def r4(ctx: Ctx) -> None:
+    proj = ctx.proj
+    ed = proj.func('merchant_utils.explain_description')
+    fl = get_flow(proj, ed)
+    at_calls = fl.calls('apply_transforms')
+    m_calls = fl.calls('matches_transaction')
+    if not at_calls or not m_calls:
+        ctx.unknown('C16.R4', ed, 'apply_transforms / matches_transaction calls not found in explain_description')
+    tgt = at_calls[0].args[0]
+    ok_obj = isinstance(tgt, ast.Name)
+    tname = tgt.id if ok_obj else src(tgt)
+    ctx.check(ok_obj, 'C16.R4', ed, 'transform-target', f'transforms are applied in place to {tname}',
+              f'apply_transforms({src(tgt)[:40]}, …) transforms a temporary object', at_calls[0])
+    for c in m_calls:
+        a = c.args[1] if len(c.args) > 1 else None
+        ok = a is not None and isinstance(a, ast.Name) and a.id == tname
+        ctx.check(ok, 'C16.R4', ed, 'matched-object', f'expression rules are matched against the transformed {tname}',
+                  f'expression rules are matched against {src(a) if a is not None else None!r} while the transforms were applied to {src(tgt)[:40]!r}: explain reports the result for the '
+                  f'untransformed description, `tally up` classifies the transformed one', c)
+    # the regex branch searches the transformed description
+    searches = [c for c in fl.calls('search') if dotted(c.func) == 're.search']
+    for c in searches:
+        a = fl.atoms(c.args[1], c) if len(c.args) > 1 else set()
+        ok = f'key:{tname}:description' in a or any(x.startswith('key:') and x.endswith(':description') and 'call:apply_transforms' in a for x in a)
+        ok = ok or 'name:transformed_desc' in a
+        src_ok = False
+        for dn in fl.cfg.defs_reaching(fl.stmt_of(c), 'transformed_desc') if 'name:transformed_desc' in a else []:
+            if dn != 'param':
+                v = getattr(fl.cfg.stmt[dn], 'value', None)
+                if v is not None and (f'key:{tname}:description' in fl.atoms(v, fl.cfg.stmt[dn]) or 'call:apply_transforms' in fl.atoms(v, fl.cfg.stmt[dn])):
+                    src_ok = True
+        ctx.check(ok and (src_ok or 'name:transformed_desc' not in a), 'C16.R4', ed, 'regex-target', 'regex rules search the transformed description',
+                  f're.search target {src(c.args[1]) if len(c.args) > 1 else None!r} does not derive from the transformed transaction', c)
